@@ -120,6 +120,10 @@ func init() {
 		}
 		for i := 0; i < n; i++ {
 			name, org, ref := c17name(rng), c17name(rng), c17ref(rng)
+			// names that already carry (part of) the suffix, or are the suffix: the expansion appends it regardless
+			if rng.Chance(12) {
+				name = sx.Pick(rng, []string{name + "-buildkite-plugin", "buildkite-plugin", name + "-buildkite-plugin-x", "-buildkite-plugin", name + "-buildkite"})
+			}
 			switch rng.Intn(12) {
 			case 0, 1, 2:
 				c17one(name+ref, "github.com/buildkite-plugins/"+name+"-buildkite-plugin"+ref, "bare")
